@@ -184,6 +184,7 @@ func c09Gen(g *core.Gen) {
 	}
 	g.Emit(&c09Case{Kind: "env"})
 	for _, p := range paths {
+		g.Emit(&c09Case{Kind: "refused", Path: p})
 		step := 256
 		for lo := 0; lo < 65536; lo += step {
 			g.Emit(&c09Case{Kind: "values", Path: p, Lo: lo, Hi: lo + step})
@@ -318,10 +319,96 @@ func c09EnvRun(r *core.Rec) {
 	r.NontrivialCase()
 }
 
+// c09RefusedRun: a history of calls outside the kernels' contract (input and output of different lengths: they panic,
+// some after having written part of the output - not judged, only the input must stay as it is), many more than there
+// are processors; then valid calls of the same sizes, which must still
+// compute the products (a refused call that leaves something behind - a lock, a slot, a scratch buffer - shows here,
+// as a wrong product or as a call that never returns: the watchdog reports that as a hang)
+func c09RefusedRun(c *c09Case, r *core.Rec) {
+	k, why := c09Path(c.Path)
+	if k == nil {
+		r.Count("skipped_"+c.Path, 1)
+		r.Note("path " + c.Path + " skipped: " + why)
+		return
+	}
+	defer k.restore()
+	n := 0
+	for _, L := range []int{2, 34, 4096, 65536} {
+		in, out := make([]byte, L), make([]byte, L+2)
+		for i := range in {
+			in[i] = byte(i*7 + 1)
+		}
+		for i := range out {
+			out[i] = byte(i*13 + 5)
+		}
+		for rep := 0; rep < 2*runtime.NumCPU()+3; rep++ {
+			for op := 0; op < 2; op++ {
+				pi := core.Catch(func() {
+					if op == 0 {
+						k.mul(0x1234, in, out)
+					} else {
+						k.mulAdd(0x1234, in, out[:L-2])
+					}
+				})
+				n++
+				if pi == nil {
+					r.Count("mismatched_call_accepted", 1)
+				}
+				for i := range in {
+					if in[i] != byte(i*7+1) {
+						r.Violatef("kernel-modified-input:"+c.Path, "path %s: a call with buffers of different lengths changed its input", c.Path)
+						return
+					}
+				}
+				for i := range out {
+					out[i] = byte(i*13 + 5)
+				}
+			}
+		}
+		// now the valid calls
+		for op := 0; op < 2; op++ {
+			o := out[:L]
+			for i := range o {
+				o[i] = byte(i*13 + 5)
+			}
+			pi := core.Catch(func() {
+				if op == 0 {
+					k.mul(0x1234, in, o)
+				} else {
+					k.mulAdd(0x1234, in, o)
+				}
+			})
+			n++
+			if pi != nil {
+				r.Violatef("kernel-fault:"+c.Path, "path %s len %d after refused calls: %s", c.Path, L, pi.Value)
+				return
+			}
+			for i := 0; i+1 < L; i += 2 {
+				want := gf16.Mul(0x1234, uint16(in[i])|uint16(in[i+1])<<8)
+				if op == 1 {
+					want ^= uint16(byte(i*13+5)) | uint16(byte((i+1)*13+5))<<8
+				}
+				if got := uint16(o[i]) | uint16(o[i+1])<<8; got != want {
+					r.Violatef("kernel-wrong-value:"+c.Path, "path %s len %d op %d after refused calls: word %d = %#x, want %#x", c.Path, L, op, i/2, got, want)
+					return
+				}
+			}
+		}
+	}
+	r.AddStates(n)
+	r.AddTransitions(n)
+	r.Outcome("refused " + c.Path)
+	r.NontrivialCase()
+}
+
 func c09Run(ci interface{}, r *core.Rec) {
 	c := ci.(*c09Case)
 	if c.Kind == "env" {
 		c09EnvRun(r)
+		return
+	}
+	if c.Kind == "refused" {
+		c09RefusedRun(c, r)
 		return
 	}
 	k, why := c09Path(c.Path)
@@ -509,7 +596,7 @@ func init() {
 		AltArch: true,
 		Level:   "model_checking",
 		Rule: "complete over values: for every dispatch path (SSSE3 assembly, non-SSSE3 assembly via the forced flag, portable Go byte kernels, the little-endian cast path, the []T kernels used by Matrix with the dispatch flag on and off, and the real non-amd64 dispatch (byte and []T kernels) in a GOARCH=386 worker) x every constant c (65536) x a buffer holding every word value (65536) x {Mul, MulAndAdd against a prior content}. " +
-			"Shapes: every even length 0..200 and {65534,65536,65538,131070,131072,131074,262178} x every (src,dst) alignment pair mod 16 (4x4 for the large ones) x 8 constants x placement against the upper / lower PROT_NONE guard page, and (lengths <= 200) as a window of a larger area whose capacity extends beyond the length, plus in==out aliasing; short shapes also with a low-entropy input (zero except the first / last word and the last word of every 16-byte block). Environment: every constant x a 34-byte buffer on every path in a FRESH process whose HOME / XDG_* / TMPDIR / working directory are scratch directories, then again for every file that process left there x 11 mutations of it (truncated, emptied, garbled, grown, replaced by a directory, removed). " +
+			"Shapes: every even length 0..200 and {65534,65536,65538,131070,131072,131074,262178} x every (src,dst) alignment pair mod 16 (4x4 for the large ones) x 8 constants x placement against the upper / lower PROT_NONE guard page, and (lengths <= 200) as a window of a larger area whose capacity extends beyond the length, plus in==out aliasing; a history of 2 x CPUs + 3 calls outside the contract (buffers of different lengths) per length in {2,34,4096,65536} followed by valid calls; short shapes also with a low-entropy input (zero except the first / last word and the last word of every 16-byte block). Environment: every constant x a 34-byte buffer on every path in a FRESH process whose HOME / XDG_* / TMPDIR / working directory are scratch directories, then again for every file that process left there x 11 mutations of it (truncated, emptied, garbled, grown, replaced by a directory, removed). " +
 			"Oracle: out[i]==ref(c,in[i]) (xor prior); input unchanged; guard pages (faults become panics via SetPanicOnFault) and canary bytes detect any access outside the buffers. non-trivial = every executed case",
 		Assumptions: []string{"'no SSSE3' is simulated by forcing the dispatch flag (build-tagged hook)", "big-endian hosts are reached only through the exported portable byte kernels"},
 		NewCase:     func() interface{} { return &c09Case{} },
